@@ -1,3 +1,3 @@
-# KN9 (apply to the source below)
+# KN9 repaired by a fix: commit - regression case, must pass (apply to the source below)
 #source: <e0 xmlns:p="u4"><e2 p:b="u5"/></e0>
 <xsl:stylesheet version="1.0" xmlns:xsl="http://www.w3.org/1999/XSL/Transform"><xsl:template match="/"><o><xsl:copy-of select="//*[local-name()='e2']/@*"/></o></xsl:template></xsl:stylesheet>
